@@ -249,39 +249,7 @@ func C04(c *Ctx) {
 	}
 	c.constPut("C04.reset", c.P.Func("(*ab/lock.Lock).AfterAuthSuccess"), "PutAttemptCount", 0)
 	c.constPut("C04.reset", c.P.Func("(*ab/lock.Lock).Unlock"), "PutAttemptCount", 0)
-	// every completion does the bookkeeping: no shortcut (account already locked,
-	// account not locked, nothing to do) returns success without it
-	everyExit := func(fn *ssa.Function, assume map[ssa.Value]bool, method, what, bad string) {
-		is := func(i ssa.Instruction) bool {
-			call, ok := i.(ssa.CallInstruction)
-			if !ok {
-				return false
-			}
-			if method == "Save" {
-				return Callee(call) == fnSave
-			}
-			return call.Common().IsInvoke() && call.Common().Method.Name() == method && c.isUserType(call.Common().Value.Type())
-		}
-		// starting after the user was obtained: failing to load it is an error exit anyway
-		q := PathQuery{StartBlock: fn.Blocks[0], Assume: assume, Cut: is, GoalP: c.nonErrorReturn}
-		if p := q.Find(); p != nil {
-			r.Bad("C04.every-attempt", FuncName(fn), what, posf(c, p[len(p)-1]), bad, c.P.DescribePath(p)...)
-		} else {
-			r.Ok("C04.every-attempt", FuncName(fn), what, c.P.Pos(fn.Pos()), "on every completing path")
-		}
-	}
-	failAssume := map[ssa.Value]bool{}
-	if uls != c.P.Func("(*ab/lock.Lock).AfterAuthFail") && len(uls.Params) > 0 {
-		if last := uls.Params[len(uls.Params)-1]; isBoolType(last.Type()) {
-			failAssume[last] = false
-		}
-	}
-	everyExit(uls, failAssume, "PutAttemptCount", "failed attempt ⇒ PutAttemptCount", "a failed attempt can complete without being counted: failures on that path (an account that is already locked, …) neither add up nor re-trigger the lock")
-	everyExit(uls, nil, "PutLastAttempt", "attempt ⇒ PutLastAttempt", "an attempt can complete without its time being recorded: the window the failures are counted in is measured from a stale instant")
-	everyExit(uls, nil, "Save", "attempt ⇒ Save", "an attempt can complete without the lock state being stored")
-	everyExit(c.P.Func("(*ab/lock.Lock).Unlock"), nil, "PutAttemptCount", "Unlock ⇒ PutAttemptCount(0)", "Unlock can report success without resetting the failure count: the stale count makes the next failure lock the account again")
-	everyExit(c.P.Func("(*ab/lock.Lock).Unlock"), nil, "Save", "Unlock ⇒ Save", "Unlock can report success without storing the reset state")
-	everyExit(c.P.Func("(*ab/lock.Lock).Lock"), nil, "Save", "Lock ⇒ Save", "Lock can report success without storing the lock")
+	c.lockEveryAttempt("C04.every-attempt", uls)
 	// Unlock: PutLocked(now.Add(negative duration)) — the argument is Add of a negated LockDuration
 	ul := c.P.Func("(*ab/lock.Lock).Unlock")
 	okU := false
@@ -526,4 +494,44 @@ func (c *Ctx) admitsVerified(phi *ssa.Phi, op token.Token, n int64, depth int) s
 		return "a value assigned on a verified path"
 	}
 	return ""
+}
+
+// lockEveryAttempt: every completion of the lock routines does the
+// bookkeeping; no shortcut returns success without it, and none of it depends
+// on the password outcome except the count itself.
+func (c *Ctx) lockEveryAttempt(rule string, uls *ssa.Function) {
+	r := c.R
+	// every completion does the bookkeeping: no shortcut (account already locked,
+	// account not locked, nothing to do) returns success without it
+	everyExit := func(fn *ssa.Function, assume map[ssa.Value]bool, method, what, bad string) {
+		is := func(i ssa.Instruction) bool {
+			call, ok := i.(ssa.CallInstruction)
+			if !ok {
+				return false
+			}
+			if method == "Save" {
+				return Callee(call) == fnSave
+			}
+			return call.Common().IsInvoke() && call.Common().Method.Name() == method && c.isUserType(call.Common().Value.Type())
+		}
+		// starting after the user was obtained: failing to load it is an error exit anyway
+		q := PathQuery{StartBlock: fn.Blocks[0], Assume: assume, Cut: is, GoalP: c.nonErrorReturn}
+		if p := q.Find(); p != nil {
+			r.Bad(rule, FuncName(fn), what, posf(c, p[len(p)-1]), bad, c.P.DescribePath(p)...)
+		} else {
+			r.Ok(rule, FuncName(fn), what, c.P.Pos(fn.Pos()), "on every completing path")
+		}
+	}
+	failAssume := map[ssa.Value]bool{}
+	if uls != c.P.Func("(*ab/lock.Lock).AfterAuthFail") && len(uls.Params) > 0 {
+		if last := uls.Params[len(uls.Params)-1]; isBoolType(last.Type()) {
+			failAssume[last] = false
+		}
+	}
+	everyExit(uls, failAssume, "PutAttemptCount", "failed attempt ⇒ PutAttemptCount", "a failed attempt can complete without being counted: failures on that path (an account that is already locked, …) neither add up nor re-trigger the lock")
+	everyExit(uls, nil, "PutLastAttempt", "attempt ⇒ PutLastAttempt", "an attempt can complete without its time being recorded: the window the failures are counted in is measured from a stale instant")
+	everyExit(uls, nil, "Save", "attempt ⇒ Save", "an attempt can complete without the lock state being stored")
+	everyExit(c.P.Func("(*ab/lock.Lock).Unlock"), nil, "PutAttemptCount", "Unlock ⇒ PutAttemptCount(0)", "Unlock can report success without resetting the failure count: the stale count makes the next failure lock the account again")
+	everyExit(c.P.Func("(*ab/lock.Lock).Unlock"), nil, "Save", "Unlock ⇒ Save", "Unlock can report success without storing the reset state")
+	everyExit(c.P.Func("(*ab/lock.Lock).Lock"), nil, "Save", "Lock ⇒ Save", "Lock can report success without storing the lock")
 }
